@@ -10,6 +10,7 @@ import (
 	"encoding/json"
 	"fmt"
 	"sort"
+	"strings"
 
 	"github.com/getkin/kin-openapi/openapi3"
 	"github.com/getkin/kin-openapi/routers"
@@ -420,6 +421,29 @@ func LoadWorld(data []byte) (*World, error) {
 		return nil, fmt.Errorf("router: %w", err)
 	}
 	return &World{Doc: doc, Router: r}, nil
+}
+
+// AllowedAuthCalls lists the (scheme, scopes) pairs of the requirement list in
+// effect: the only things the callback may be asked about.
+func AllowedAuthCalls(d SDoc) [][2]string {
+	shape := d.SecOp
+	if shape == "nil_slice_ptr" {
+		return nil
+	}
+	if shape == "" {
+		shape = d.SecDoc
+	}
+	var out [][2]string
+	for _, r := range secReqs(shape) {
+		for name, sc := range r.(map[string]any) {
+			var scopes []string
+			for _, x := range sc.([]any) {
+				scopes = append(scopes, fmt.Sprint(x))
+			}
+			out = append(out, [2]string{name, strings.Join(scopes, ",")})
+		}
+	}
+	return out
 }
 
 // PatchSecurity gives the operation the security declaration a document built in
